@@ -111,10 +111,11 @@ func (df *DataFile) WriteMergeFinRecord(id FileID, count uint32) error {
 	if df.closed {
 		return ErrClosed
 	}
-	data := make([]byte, 8)
-	binary.LittleEndian.PutUint32(data, id)
-	binary.LittleEndian.PutUint32(data[4:], count)
-	_, err := df.ReadWriter.Write(data)
+	// ReadMergeFinRecord 通过 chunk 读取, 因此必须以 chunk 格式写入
+	data := bytebufferpool.Get()
+	data.B = binary.LittleEndian.AppendUint32(data.B, id)
+	data.B = binary.LittleEndian.AppendUint32(data.B, count)
+	_, err := df.writeSingle(data)
 	return err
 }
 
